@@ -380,6 +380,7 @@ def generate_control_tick(repo: Path) -> str:
     t = S.SkelTr(repo, S.CONTROL_SPEC, opaque=("save_state", "try_pause", "resume"))
     gen = t.generate(["on_tick", "on_finally", "is_running"])
     body = (TIES_DIR / "control_tick.lean").read_text().replace("--%GEN%\n", gen)
+    body = body.replace("--%GEN_MON%\n", S.SkelTr(repo, S.MONITOR_SPEC).generate(["check_exception_raised"]))
     return ("import Pamiq.Model.Tick\nset_option linter.unusedVariables false\nset_option linter.unusedSimpArgs false\n"
             "namespace Pamiq.GenCT\nopen Pamiq\n\n" + S.PRELUDE + "\n" + body + "\nend Pamiq.GenCT\n")
 
